@@ -1,6 +1,1273 @@
-//! C14 -- (stub; see DESIGN.md section 5)
-use crate::util::Args;
+//! C14: the hyphenation pass over a horizontal list (`boxworks_hyphenate::Hyphenator::hyphenate`,
+//! tex.web 891-918) -- binding F on (before, after) lists.
+//!
+//! Every case is a *script* executed on the real text -> hlist path
+//! (`boxworks_text::TextPreprocessorImpl`: `add_word`, `add_space`, `activate_font`; raw nodes are
+//! pushed as they are) followed by the real hyphenation pass.  One event per case:
+//!
+//! ```json
+//! {"script":[["s"],["w","dif"],["f",1],["w","ferent"],["n",{"k":"pen","p":0}],...],
+//!  "font":{"kind":"cmr10"} | {"kind":"synth","bc":124|-1,"rules":[[l|-1,r,"K",amount]|[l|-1,r,"/LIG/>",c],...]},
+//!  "exc":[{"w":[100,105,102],"p":[1,2]},...],   the hyphenation exceptions loaded (no patterns): word, positions
+//!  "lh":2,"rh":3,"hc":45,                       \lefthyphenmin, \righthyphenmin, the hyphen character
+//!  "before":[node,...],"after":[node,...]}      or "panic":[file,msg] instead of "after"
+//! ```
+//!
+//! nodes: {"k":"char","c":..,"f":..} {"k":"lig","c":..,"f":..,"o":[..],"lb":0|1,"rb":0|1}
+//! {"k":"kern","w":..,"x":0 normal|1 explicit|2 accent|3 math} {"k":"glue","w","st","sh","sto","sho","gk"}
+//! {"k":"pen","p"} {"k":"disc","pre":[..],"post":[..],"n":replace_count} {"k":"rule","w","h","d"}
+//! {"k":"hbox","w"} {"k":"vbox","w"} {"k":"math","m":0|1} {"k":"mark"} {"k":"ins","b"} {"k":"adjust"} {"k":"what","id"}
+//!
+//! No expected value is computed here.  `Allowed` (the permitted hyphen positions of a word) is
+//! *chosen* by the generator and loaded as exceptions; which words TeX tries, where the
+//! discretionaries must be and what they must contain is decided by specs/Trace_HyphenList.tla.
+use crate::util::{catch, quiet_panics, Args, Out, Rng};
+use boxworks::ds;
+use boxworks::TextPreprocessor;
+use boxworks_text as bwt;
+use common::{GlueOrder, Scaled};
+use serde_json::{json, Value};
+use std::collections::BTreeMap;
+use std::rc::Rc;
 
-pub fn dispatch(_cmd: &str, _args: &Args) -> Option<i32> {
-    None
+pub fn dispatch(cmd: &str, args: &Args) -> Option<i32> {
+    Some(match cmd {
+        "c14-text" => text_cases(args),
+        "c14-synth" => synth_cases(args),
+        "c14-struct" => struct_cases(args),
+        "c14-unit" => unit_cases(args),
+        "c14-replay" => replay(args),
+        "c14-probe" => probe(args),
+        _ => return None,
+    })
+}
+
+const CMR10: &[u8] = include_bytes!(concat!(
+    env!("CARGO_MANIFEST_DIR"),
+    "/../../repo/crates/tfm/corpus/computer-modern/cmr10.tfm"
+));
+
+const HYPHEN: char = '-';
+
+// ------------------------------------------------------------------------------------------
+// fonts
+// ------------------------------------------------------------------------------------------
+
+#[derive(Clone, Debug, PartialEq)]
+enum Op {
+    Kern(i32),       // in 1/1000 of the design size
+    Lig(usize, u8),  // index into LIG_FORMS, inserted character
+}
+
+const LIG_FORMS: [&str; 8] = ["LIG", "/LIG", "/LIG>", "LIG/", "LIG/>", "/LIG/", "/LIG/>", "/LIG/>>"];
+
+#[derive(Clone, Debug, PartialEq)]
+struct Rule {
+    l: Option<u8>, // None = left boundary
+    r: u8,         // the boundary character stands for the right boundary
+    op: Op,
+}
+
+#[derive(Clone, Debug, PartialEq)]
+enum FontSpec {
+    Cmr10,
+    /// font built from PL text: characters = `chars`, BOUNDARYCHAR = bc, LIGTABLE = rules
+    Synth { bc: Option<u8>, rules: Vec<Rule> },
+}
+
+const SYNTH_CHARS: &str = "abcdefghijklmnopqrstuvwxyzABCDEFGHIJKLMNOPQRSTUVWXYZ0123456789.,-()|'!?";
+
+fn pl_text(bc: Option<u8>, rules: &[Rule]) -> String {
+    let mut s = String::new();
+    s.push_str("(FAMILY SYNTH)\n(DESIGNSIZE R 10.0)\n");
+    if let Some(bc) = bc {
+        s.push_str(&format!("(BOUNDARYCHAR O {:o})\n", bc));
+    }
+    s.push_str(
+        "(FONTDIMEN\n (SLANT R 0.0)\n (SPACE R 0.3)\n (STRETCH R 0.15)\n (SHRINK R 0.1)\n (XHEIGHT R 0.4)\n (QUAD R 1.0)\n (EXTRASPACE R 0.1)\n )\n",
+    );
+    s.push_str("(LIGTABLE\n");
+    let mut lefts: Vec<Option<u8>> = vec![];
+    for r in rules {
+        if !lefts.contains(&r.l) {
+            lefts.push(r.l);
+        }
+    }
+    for l in lefts {
+        match l {
+            None => s.push_str(" (LABEL BOUNDARYCHAR)\n"),
+            Some(c) => s.push_str(&format!(" (LABEL O {:o})\n", c)),
+        }
+        for r in rules.iter().filter(|r| r.l == l) {
+            match &r.op {
+                Op::Kern(k) => {
+                    let sign = if *k < 0 { "-" } else { "" };
+                    let a = k.unsigned_abs();
+                    s.push_str(&format!(" (KRN O {:o} R {}{}.{:03})\n", r.r, sign, a / 1000, a % 1000));
+                }
+                Op::Lig(form, c) => {
+                    s.push_str(&format!(" ({} O {:o} O {:o})\n", LIG_FORMS[*form], r.r, c));
+                }
+            }
+        }
+        s.push_str(" (STOP)\n");
+    }
+    s.push_str(" )\n");
+    for (i, c) in SYNTH_CHARS.bytes().enumerate() {
+        s.push_str(&format!("(CHARACTER O {:o} (CHARWD R 0.{:03}))\n", c, 300 + 7 * i));
+    }
+    s
+}
+
+struct Font {
+    /// the real text -> hlist path with this font registered under the numbers 0 and 1
+    tp: bwt::TextPreprocessorImpl,
+    /// the real hyphenation pass with this font's program; exceptions and minimums are set per case
+    hyph: boxworks_hyphenate::Hyphenator,
+}
+
+impl Font {
+    fn new(tfm: tfm::File, prog: tfm::ligkern::CompiledProgram) -> Font {
+        let mut tp = bwt::TextPreprocessorImpl::new(bwt::Params::plain_tex_defaults());
+        tp.register_font(0, &tfm, prog.clone());
+        tp.register_font(1, &tfm, prog.clone());
+        let hyph = boxworks_hyphenate::Hyphenator {
+            lig_kern_program: prog,
+            hyphenator: Default::default(),
+            left_hyphen_min: 1,
+            right_hyphen_min: 1,
+        };
+        Font { tp, hyph }
+    }
+}
+
+fn load_font(spec: &FontSpec) -> Result<Font, String> {
+    match spec {
+        FontSpec::Cmr10 => {
+            let mut tfm = tfm::File::deserialize(CMR10).0.map_err(|e| format!("{e:?}"))?;
+            let (prog, errs) = tfm::ligkern::CompiledProgram::compile_from_tfm_file(&mut tfm);
+            if !errs.is_empty() {
+                return Err("cmr10 lig/kern program has an infinite loop".into());
+            }
+            Ok(Font::new(tfm, prog))
+        }
+        FontSpec::Synth { bc, rules } => {
+            let src = pl_text(*bc, rules);
+            let (pl, _warnings) = tfm::pl::File::from_pl_source_code(&src);
+            let (_, errs) = tfm::ligkern::CompiledProgram::compile_from_pl_file(&pl);
+            if !errs.is_empty() {
+                return Err("infinite lig/kern loop".into());
+            }
+            // the road a font takes in practice: PL -> TFM bytes (pltotf) -> loaded TFM -> compiled program.
+            // (Compiling the in-memory conversion directly would use a stale left-boundary entry point when
+            // BOUNDARYCHAR is declared: pack_entrypoints shifts the instructions but not
+            // left_boundary_char_entrypoint -- a tfm-crate matter outside C14, avoided here.)
+            let tfm: tfm::File = pl.into();
+            let bytes = tfm.serialize();
+            let mut tfm = tfm::File::deserialize(&bytes).0.map_err(|e| format!("{e:?}"))?;
+            let (prog, errs) = tfm::ligkern::CompiledProgram::compile_from_tfm_file(&mut tfm);
+            if !errs.is_empty() {
+                return Err("infinite lig/kern loop".into());
+            }
+            Ok(Font::new(tfm, prog))
+        }
+    }
+}
+
+fn font_json(spec: &FontSpec) -> Value {
+    match spec {
+        FontSpec::Cmr10 => json!({"kind":"cmr10"}),
+        FontSpec::Synth { bc, rules } => {
+            let rs: Vec<Value> = rules
+                .iter()
+                .map(|r| {
+                    let l = r.l.map(|c| c as i64).unwrap_or(-1);
+                    match &r.op {
+                        Op::Kern(k) => json!([l, r.r, "K", k]),
+                        Op::Lig(f, c) => json!([l, r.r, LIG_FORMS[*f], c]),
+                    }
+                })
+                .collect();
+            json!({"kind":"synth","bc":bc.map(|c| c as i64).unwrap_or(-1),"rules":rs})
+        }
+    }
+}
+
+fn font_from_json(v: &Value) -> FontSpec {
+    if v["kind"] == "cmr10" {
+        return FontSpec::Cmr10;
+    }
+    let bc = v["bc"].as_i64().filter(|b| *b >= 0).map(|b| b as u8);
+    let rules = v["rules"]
+        .as_array()
+        .unwrap()
+        .iter()
+        .map(|r| {
+            let l = r[0].as_i64().filter(|b| *b >= 0).map(|b| b as u8);
+            let rr = r[1].as_i64().unwrap() as u8;
+            let name = r[2].as_str().unwrap();
+            let op = if name == "K" {
+                Op::Kern(r[3].as_i64().unwrap() as i32)
+            } else {
+                Op::Lig(LIG_FORMS.iter().position(|f| *f == name).unwrap(), r[3].as_i64().unwrap() as u8)
+            };
+            Rule { l, r: rr, op }
+        })
+        .collect();
+    FontSpec::Synth { bc, rules }
+}
+
+// ------------------------------------------------------------------------------------------
+// nodes <-> JSON
+// ------------------------------------------------------------------------------------------
+
+#[derive(Debug)]
+struct W(u32);
+impl ds::Whatsit for W {}
+
+fn code(c: char) -> i64 {
+    c as u32 as i64
+}
+
+fn node_json(n: &ds::Horizontal) -> Value {
+    use ds::Horizontal::*;
+    match n {
+        Char(c) => json!({"k":"char","c":code(c.char),"f":c.font}),
+        Ligature(l) => json!({"k":"lig","c":code(l.char),"f":l.font,
+            "o": l.original_chars.chars().map(code).collect::<Vec<_>>(),
+            "lb": l.includes_left_boundary as i32, "rb": l.includes_right_boundary as i32}),
+        Kern(k) => json!({"k":"kern","w":k.width.0,"x": match k.kind {
+            ds::KernKind::Normal => 0, ds::KernKind::Explicit => 1, ds::KernKind::Accent => 2, ds::KernKind::Math => 3}}),
+        Glue(g) => json!({"k":"glue","w":g.value.width.0,"st":g.value.stretch.0,"sh":g.value.shrink.0,
+            "sto":g.value.stretch_order as i32,"sho":g.value.shrink_order as i32,"gk": match g.kind {
+                ds::GlueKind::Normal => 0, ds::GlueKind::ConditionalMath => 1, ds::GlueKind::Math => 2,
+                ds::GlueKind::AlignedLeader => 3, ds::GlueKind::CenteredLeader => 4, ds::GlueKind::ExpandedLeader => 5}}),
+        Penalty(p) => json!({"k":"pen","p":p.0}),
+        Discretionary(d) => json!({"k":"disc",
+            "pre": d.pre_break.iter().map(|e| node_json(&e.clone().into())).collect::<Vec<_>>(),
+            "post": d.post_break.iter().map(|e| node_json(&e.clone().into())).collect::<Vec<_>>(),
+            "n": d.replace_count}),
+        Rule(r) => json!({"k":"rule","w":r.width.0,"h":r.height.0,"d":r.depth.0}),
+        HBox(b) => json!({"k":"hbox","w":b.width.0}),
+        VBox(b) => json!({"k":"vbox","w":b.width.0}),
+        Math(m) => json!({"k":"math","m": matches!(m, ds::Math::After) as i32}),
+        Mark(_) => json!({"k":"mark"}),
+        Insertion(i) => json!({"k":"ins","b":i.box_number}),
+        Adjust(_) => json!({"k":"adjust"}),
+        Whatsit(w) => {
+            let s = format!("{:?}", w);
+            let id: i64 = s.chars().filter(|c| c.is_ascii_digit()).collect::<String>().parse().unwrap_or(-1);
+            json!({"k":"what","id":id})
+        }
+    }
+}
+
+/// raw nodes of a script (the kinds a generator places between pieces of text)
+fn node_from_json(v: &Value) -> ds::Horizontal {
+    let i = |k: &str| v[k].as_i64().unwrap_or(0) as i32;
+    match v["k"].as_str().unwrap() {
+        "glue" => ds::Glue {
+            kind: ds::GlueKind::Normal,
+            value: common::Glue {
+                width: Scaled(i("w")),
+                stretch: Scaled(i("st")),
+                shrink: Scaled(i("sh")),
+                stretch_order: order(i("sto")),
+                shrink_order: order(i("sho")),
+            },
+        }
+        .into(),
+        "kern" => ds::Kern {
+            width: Scaled(i("w")),
+            kind: match i("x") {
+                0 => ds::KernKind::Normal,
+                1 => ds::KernKind::Explicit,
+                2 => ds::KernKind::Accent,
+                _ => ds::KernKind::Math,
+            },
+        }
+        .into(),
+        "pen" => ds::Penalty(i("p")).into(),
+        "rule" => ds::Rule { width: Scaled(i("w")), height: Scaled(i("h")), depth: Scaled(i("d")) }.into(),
+        "hbox" => ds::HBox { width: Scaled(i("w")), ..Default::default() }.into(),
+        "vbox" => ds::VBox { width: Scaled(i("w")), ..Default::default() }.into(),
+        "math" => (if i("m") == 1 { ds::Math::After } else { ds::Math::Before }).into(),
+        "mark" => ds::Mark { list: vec![] }.into(),
+        "ins" => ds::Insertion {
+            box_number: i("b") as u8,
+            height: Scaled(0),
+            split_max_depth: Scaled(0),
+            split_top_skip: common::Glue::ZERO,
+            float_penalty: 0,
+            vbox: vec![],
+        }
+        .into(),
+        "adjust" => ds::Adjust { list: vec![] }.into(),
+        "what" => ds::Horizontal::Whatsit(Rc::new(W(i("id") as u32))),
+        "disc" => ds::Discretionary::default().into(),
+        "char" => ds::Char { char: char::from_u32(i("c") as u32).unwrap(), font: i("f") as u32 }.into(),
+        other => panic!("raw node kind {other} not supported in scripts"),
+    }
+}
+
+fn order(i: i32) -> GlueOrder {
+    match i {
+        0 => GlueOrder::Normal,
+        1 => GlueOrder::Fil,
+        2 => GlueOrder::Fill,
+        _ => GlueOrder::Filll,
+    }
+}
+
+// ------------------------------------------------------------------------------------------
+// scripts and cases
+// ------------------------------------------------------------------------------------------
+
+#[derive(Clone, Debug)]
+enum Item {
+    Word(String),
+    Space,
+    Font(u32),
+    Node(Value),
+}
+
+fn item_json(i: &Item) -> Value {
+    match i {
+        Item::Word(w) => json!(["w", w]),
+        Item::Space => json!(["s"]),
+        Item::Font(f) => json!(["f", f]),
+        Item::Node(n) => json!(["n", n]),
+    }
+}
+
+fn item_from_json(v: &Value) -> Item {
+    match v[0].as_str().unwrap() {
+        "w" => Item::Word(v[1].as_str().unwrap().to_string()),
+        "s" => Item::Space,
+        "f" => Item::Font(v[1].as_u64().unwrap() as u32),
+        _ => Item::Node(v[1].clone()),
+    }
+}
+
+#[derive(Clone, Debug)]
+struct Case {
+    font: FontSpec,
+    script: Vec<Item>,
+    /// lower-case word -> permitted positions (number of letters before the hyphen)
+    exc: BTreeMap<String, Vec<usize>>,
+    lh: i32,
+    rh: i32,
+}
+
+fn tail_items() -> Vec<Item> {
+    // what the line breaker appends before it calls the hyphenator (tex.web 816)
+    vec![
+        Item::Node(json!({"k":"pen","p":10000})),
+        Item::Node(json!({"k":"glue","w":0,"st":65536,"sh":0,"sto":1,"sho":0,"gk":0})),
+    ]
+}
+
+fn exception_text(word: &str, pos: &[usize]) -> String {
+    let mut s = String::new();
+    for (i, c) in word.chars().enumerate() {
+        if pos.contains(&i) {
+            s.push('-');
+        }
+        s.push(c);
+    }
+    s
+}
+
+struct Ran {
+    before: Vec<ds::Horizontal>,
+    after: Result<Vec<ds::Horizontal>, (String, String)>,
+}
+
+fn run_case(case: &Case, font: &mut Font) -> Ran {
+    let tp = &mut font.tp;
+    tp.activate_font(0);
+    tp.new_paragraph();
+    let mut before: Vec<ds::Horizontal> = vec![];
+    for item in &case.script {
+        match item {
+            Item::Word(w) => tp.add_word(w, &mut before),
+            Item::Space => tp.add_space(&mut before),
+            Item::Font(f) => tp.activate_font(*f),
+            Item::Node(v) => before.push(node_from_json(v)),
+        }
+    }
+    let mut inner: hyphenate::Hyphenator = Default::default();
+    for (w, p) in &case.exc {
+        inner.insert_exception(&exception_text(w, p));
+    }
+    font.hyph.hyphenator = inner;
+    font.hyph.left_hyphen_min = case.lh;
+    font.hyph.right_hyphen_min = case.rh;
+    let h = &font.hyph;
+    let input = before.clone();
+    let after = catch(move || {
+        use boxworks::Hyphenator;
+        let mut l = input;
+        h.hyphenate(&mut l);
+        l
+    });
+    Ran { before, after }
+}
+
+fn event(case: &Case, ran: &Ran) -> Value {
+    let exc: Vec<Value> = case
+        .exc
+        .iter()
+        .map(|(w, p)| json!({"w": w.chars().map(code).collect::<Vec<_>>(), "p": p}))
+        .collect();
+    let mut e = json!({
+        "script": case.script.iter().map(item_json).collect::<Vec<_>>(),
+        "font": font_json(&case.font),
+        "exc": exc,
+        "lh": case.lh, "rh": case.rh, "hc": code(HYPHEN),
+        "before": ran.before.iter().map(node_json).collect::<Vec<_>>(),
+    });
+    match &ran.after {
+        Ok(l) => e["after"] = Value::Array(l.iter().map(node_json).collect()),
+        Err((f, m)) => e["panic"] = json!([f, m]),
+    }
+    e
+}
+
+fn case_from_event(e: &Value) -> Case {
+    let mut exc = BTreeMap::new();
+    for x in e["exc"].as_array().unwrap() {
+        let w: String = x["w"].as_array().unwrap().iter().map(|c| char::from_u32(c.as_u64().unwrap() as u32).unwrap()).collect();
+        let p: Vec<usize> = x["p"].as_array().unwrap().iter().map(|c| c.as_u64().unwrap() as usize).collect();
+        exc.insert(w, p);
+    }
+    Case {
+        font: font_from_json(&e["font"]),
+        script: e["script"].as_array().unwrap().iter().map(item_from_json).collect(),
+        exc,
+        lh: e["lh"].as_i64().unwrap() as i32,
+        rh: e["rh"].as_i64().unwrap() as i32,
+    }
+}
+
+#[derive(Default)]
+struct Stats {
+    events: u64,
+    panics: u64,
+    with_inserted_disc: u64,
+    inserted_discs: u64,
+    with_ligature: u64,
+    with_kern: u64,
+    longest_list: usize,
+    skipped_fonts: u64,
+    distinct: std::collections::HashSet<u64>,
+}
+
+fn count_discs(l: &[ds::Horizontal]) -> u64 {
+    l.iter().filter(|n| matches!(n, ds::Horizontal::Discretionary(_))).count() as u64
+}
+
+fn hash_str(s: &str) -> u64 {
+    let mut h: u64 = 0xcbf29ce484222325;
+    for b in s.bytes() {
+        h ^= b as u64;
+        h = h.wrapping_mul(0x100000001b3);
+    }
+    h
+}
+
+impl Stats {
+    fn record(&mut self, ran: &Ran, ev: &Value) {
+        self.events += 1;
+        self.longest_list = self.longest_list.max(ran.before.len());
+        if ran.before.iter().any(|n| matches!(n, ds::Horizontal::Ligature(_))) {
+            self.with_ligature += 1;
+        }
+        if ran.before.iter().any(|n| matches!(n, ds::Horizontal::Kern(_))) {
+            self.with_kern += 1;
+        }
+        match &ran.after {
+            Ok(a) => {
+                let d = count_discs(a).saturating_sub(count_discs(&ran.before));
+                if d > 0 {
+                    self.with_inserted_disc += 1;
+                    self.inserted_discs += d;
+                }
+            }
+            Err(_) => self.panics += 1,
+        }
+        let key = json!([ev["before"], ev["exc"], ev["lh"], ev["rh"], ev["font"]]).to_string();
+        self.distinct.insert(hash_str(&key));
+    }
+    fn write(&self, args: &Args, gen: &str) {
+        if let Some(p) = args.str("stats") {
+            let v = json!({
+                "gen": gen, "events": self.events, "panics": self.panics,
+                "distinct": self.distinct.len(),
+                "nontrivial": self.with_inserted_disc,
+                "inserted_discs": self.inserted_discs,
+                "with_ligature": self.with_ligature, "with_kern": self.with_kern,
+                "longest_list": self.longest_list, "skipped_fonts": self.skipped_fonts,
+            });
+            std::fs::write(p, v.to_string()).unwrap();
+        }
+    }
+}
+
+// ------------------------------------------------------------------------------------------
+// watchdog: a pass that does not return is data too
+// ------------------------------------------------------------------------------------------
+
+static CURRENT: std::sync::Mutex<Option<(std::time::Instant, String)>> = std::sync::Mutex::new(None);
+static HANG_FILE: std::sync::Mutex<Option<String>> = std::sync::Mutex::new(None);
+
+/// If one call of the pass runs longer than `limit` seconds the case is written to `<out>.hang` as an event
+/// `{"hang": seconds, script, font, exc, lh, rh, hc}` and the process exits with code 3 (no specification accepts a hang).
+fn start_watchdog(args: &Args) {
+    let limit: u64 = args.num("hang", 20);
+    *HANG_FILE.lock().unwrap() = args.str("out").map(|p| format!("{p}.hang"));
+    std::thread::spawn(move || loop {
+        std::thread::sleep(std::time::Duration::from_millis(250));
+        let cur = CURRENT.lock().unwrap().clone();
+        if let Some((t0, case)) = cur {
+            if t0.elapsed().as_secs() >= limit {
+                let mut v: Value = serde_json::from_str(&case).unwrap();
+                v["hang"] = json!(limit);
+                let path = HANG_FILE.lock().unwrap().clone();
+                match path {
+                    Some(p) => std::fs::write(p, v.to_string() + "\n").unwrap(),
+                    None => println!("{v}"),
+                }
+                eprintln!("the hyphenation pass did not return within {limit}s");
+                std::process::exit(3);
+            }
+        }
+    });
+}
+
+fn case_json(case: &Case) -> Value {
+    let exc: Vec<Value> = case
+        .exc
+        .iter()
+        .map(|(w, p)| json!({"w": w.chars().map(code).collect::<Vec<_>>(), "p": p}))
+        .collect();
+    json!({
+        "script": case.script.iter().map(item_json).collect::<Vec<_>>(),
+        "font": font_json(&case.font),
+        "exc": exc,
+        "lh": case.lh, "rh": case.rh, "hc": code(HYPHEN),
+    })
+}
+
+fn emit(case: &Case, font: &mut Font, out: &mut Out, st: &mut Stats) {
+    *CURRENT.lock().unwrap() = Some((std::time::Instant::now(), case_json(case).to_string()));
+    let ran = run_case(case, font);
+    *CURRENT.lock().unwrap() = None;
+    let ev = event(case, &ran);
+    st.record(&ran, &ev);
+    out.line(&ev);
+}
+
+// ------------------------------------------------------------------------------------------
+// exceptions: Allowed is chosen here
+// ------------------------------------------------------------------------------------------
+
+/// maximal runs of ASCII letters in `text`, lower-cased; long runs also contribute their prefixes of
+/// 60..=63 letters (TeX looks up at most 63 letters; a ligature straddling the limit shortens the word)
+fn letter_runs(text: &str) -> Vec<String> {
+    let mut runs = vec![];
+    let mut cur = String::new();
+    for c in text.chars().chain(std::iter::once(' ')) {
+        if c.is_ascii_alphabetic() {
+            cur.push(c.to_ascii_lowercase());
+        } else if !cur.is_empty() {
+            if cur.len() > 59 {
+                for n in 60..=63 {
+                    if cur.len() >= n {
+                        runs.push(cur[..n].to_string());
+                    }
+                }
+            }
+            runs.push(std::mem::take(&mut cur));
+        }
+    }
+    runs
+}
+
+/// mode 0: random density, 1: every position, 2: none, 3: sparse
+fn choose_positions(rng: &mut Rng, n: usize, mode: u64) -> Vec<usize> {
+    (1..n)
+        .filter(|_| match mode {
+            1 => true,
+            2 => false,
+            3 => rng.chance(1, 5),
+            _ => rng.chance(1, 2),
+        })
+        .collect()
+}
+
+fn exceptions_for(script: &[Item], rng: &mut Rng, mode: Option<u64>) -> BTreeMap<String, Vec<usize>> {
+    let mut exc = BTreeMap::new();
+    for item in script {
+        if let Item::Word(w) = item {
+            for run in letter_runs(w) {
+                if run.len() < 2 || exc.contains_key(&run) {
+                    continue;
+                }
+                let m = mode.unwrap_or_else(|| [0, 0, 0, 1, 1, 2, 3, 3][rng.below(8) as usize]);
+                let p = choose_positions(rng, run.len(), m);
+                exc.insert(run, p);
+            }
+        }
+    }
+    exc
+}
+
+fn script_from_text(text: &str) -> Vec<Item> {
+    // the same splitting as boxworks::TextPreprocessor::add_text
+    let mut v = vec![];
+    let mut pending = text.chars().next().unwrap_or(' ').is_ascii_whitespace();
+    for w in text.split_ascii_whitespace() {
+        if pending {
+            v.push(Item::Space);
+        }
+        v.push(Item::Word(w.to_string()));
+        pending = true;
+    }
+    v
+}
+
+// ------------------------------------------------------------------------------------------
+// generator 1: text in the real cmr10
+// ------------------------------------------------------------------------------------------
+
+const PLAIN: &[&str] = &[
+    "difficult", "office", "waffle", "shuffling", "affliction", "fjord", "baffling", "offload", "effect",
+    "fifty", "AVATAR", "Wolf", "Yo", "To", "Table", "VAT", "away", "Typography", "Contents", "x", "a", "I",
+    "Hyphenation", "sniff", "cuff", "puffy", "fluffiest", "afflict", "raffia", "fi", "ff", "ffi", "ffl", "fl",
+    "waffling", "Pafford", "keyword", "vowel", "AWAY", "LaTeX", "flfifl", "iffy",
+];
+const PUNCT: &[&str] = &[
+    "(hello)", "baby,", "``quoted''", "end.", "what?", "stop!", "'tis", "[sic]", "f)", "off!", "f'", "wolf?",
+    "Wolf,", "(off]", "cliff!", "puff?", "``Yo,''", "(AV)", "e.g.", "i.e.,", "etc.)", "!`Hola!", "?`Que?", "shelf'",
+];
+const DIGITS: &[&str] = &["3.0", "1984", "x86", "B2B", "7up", "route66", "4ff", "ff4", "2fi2", "fi5fl", "0"];
+const HYPHENS: &[&str] = &[
+    "well-known", "--", "---", "mother-in-law", "-dash", "dash-", "off-key", "f-f", "ff-fi", "a--b", "A---V",
+    "self-", "-", "wolf-fi",
+];
+const LETTERLESS: &[&str] = &["3.0", "--", "(", ")", "...", "1.", "?!", "42", "---", "[1]", ",", "''"];
+const SYLLABLES: &[&str] = &["dif", "fi", "cult", "of", "fice", "waf", "fle", "AV", "To", "ma", "ni", "ffl", "Wo", "y", "ff"];
+
+fn long_word(rng: &mut Rng) -> String {
+    if rng.chance(1, 2) {
+        // a ligature placed around the 63-letter limit
+        let k = rng.range(56, 66) as usize;
+        let lig = *rng.pick(&["ffi", "fi", "ff", "ffl", "AV", "fl"]);
+        let mut s = "m".repeat(k);
+        s.push_str(lig);
+        s.push_str(&"n".repeat(rng.range(0, 12) as usize));
+        s
+    } else {
+        let mut s = String::new();
+        let target = rng.range(64, 80) as usize;
+        while s.len() < target {
+            let syl: &str = *rng.pick(SYLLABLES);
+            s.push_str(syl);
+        }
+        s
+    }
+}
+
+fn soup(rng: &mut Rng) -> String {
+    const A: &[u8] = b"fffiilAVoTyWa,.-'(!?)3`";
+    let n = rng.range(1, 10);
+    (0..n).map(|_| *rng.pick(A) as char).collect()
+}
+
+fn text_token(rng: &mut Rng) -> String {
+    match rng.below(20) {
+        0..=5 => rng.pick(PLAIN).to_string(),
+        6..=8 => rng.pick(PUNCT).to_string(),
+        9..=10 => rng.pick(DIGITS).to_string(),
+        11..=12 => rng.pick(HYPHENS).to_string(),
+        13..=15 => rng.pick(LETTERLESS).to_string(),
+        16 => long_word(rng),
+        _ => soup(rng),
+    }
+}
+
+fn hyphen_mins(i: u64, rng: &mut Rng, extremes: bool) -> (i32, i32) {
+    if extremes && rng.chance(1, 12) {
+        (*rng.pick(&[-1, 0, 1, 5, 62, 63, 64, 70]), *rng.pick(&[-1, 0, 2, 5, 61, 63, 64, 70]))
+    } else {
+        ((i % 5) as i32, ((i / 5) % 5) as i32)
+    }
+}
+
+fn text_cases(args: &Args) -> i32 {
+    quiet_panics();
+    start_watchdog(args);
+    let seed: u64 = args.num("seed", 1);
+    let n: u64 = args.num("n", 1000);
+    let extremes = args.num("extremes", 0) == 1;
+    let mut rng = Rng::new(seed ^ 0x14_0001);
+    let mut out = Out::new(args.str("out"));
+    let mut st = Stats::default();
+    let mut font = load_font(&FontSpec::Cmr10).expect("cmr10");
+    // fixed cases first: the sentences the property names
+    let fixed = [
+        " 3.0 Contents of difficult offices",
+        "x 3.0 Contents",
+        "Contents 3.0 Contents 1984 Hyphenation --- Typography",
+        "x difficult waffle shuffling affliction",
+        "x AVATAR Wolf, (off] well-known mother-in-law",
+        " ( parenthetical ) aside",
+    ];
+    let mut i = 0u64;
+    for t in fixed {
+        for mode in [1u64, 0] {
+            for (lh, rh) in [(1, 1), (2, 3), (0, 0)] {
+                let script = script_from_text(t);
+                let exc = exceptions_for(&script, &mut rng, Some(mode));
+                emit(&Case { font: FontSpec::Cmr10, script, exc, lh, rh }, &mut font, &mut out, &mut st);
+            }
+        }
+    }
+    while st.events < n {
+        i += 1;
+        let ntok = rng.range(2, 7);
+        let mut script: Vec<Item> = vec![];
+        if rng.chance(2, 3) {
+            script.push(Item::Space);
+        }
+        for t in 0..ntok {
+            if t > 0 {
+                script.push(Item::Space);
+            }
+            let tok = text_token(&mut rng);
+            if rng.chance(1, 10) && tok.len() > 3 && tok.is_ascii() {
+                // a font change inside the token (fonts 0 and 1 are the same cmr10)
+                let cut = rng.range(1, tok.len() as i64 - 1) as usize;
+                script.push(Item::Word(tok[..cut].to_string()));
+                script.push(Item::Font(1));
+                script.push(Item::Word(tok[cut..].to_string()));
+                script.push(Item::Font(0));
+            } else {
+                script.push(Item::Word(tok));
+            }
+        }
+        if rng.chance(1, 2) {
+            script.extend(tail_items());
+        }
+        let exc = exceptions_for(&script, &mut rng, None);
+        let (lh, rh) = hyphen_mins(i, &mut rng, extremes);
+        emit(&Case { font: FontSpec::Cmr10, script, exc, lh, rh }, &mut font, &mut out, &mut st);
+    }
+    st.write(args, "text");
+    0
+}
+
+// ------------------------------------------------------------------------------------------
+// generator 2: synthetic fonts (PL text) whose programs involve the hyphen and the boundaries
+// ------------------------------------------------------------------------------------------
+
+fn synth_rule(rng: &mut Rng, bc: Option<u8>, level: u64) -> Rule {
+    const LET: &[u8] = b"abcd";
+    const RES: &[u8] = b"xy12a";
+    let l = match rng.below(12) {
+        0..=1 => None,
+        2..=7 => Some(*rng.pick(LET)),
+        8 => Some(b'x'),
+        9 => Some(b'-'),
+        10 => Some(*rng.pick(b".,(")),
+        _ => Some(*rng.pick(b"y1")),
+    };
+    let r = match rng.below(12) {
+        0..=5 => *rng.pick(LET),
+        6..=7 => b'-',
+        8..=9 => bc.unwrap_or(b'b'),
+        10 => *rng.pick(b".,"),
+        _ => *rng.pick(b"xy1"),
+    };
+    let op = if rng.chance(1, 3) {
+        Op::Kern(rng.range(1, 40) as i32 * if rng.chance(1, 4) { -1 } else { 1 })
+    } else if level == 0 {
+        // the ligature forms real fonts use
+        Op::Lig(*rng.pick(&[0usize, 0, 0, 1, 3]), *rng.pick(RES))
+    } else {
+        Op::Lig(rng.below(8) as usize, *rng.pick(RES))
+    };
+    Rule { l, r, op }
+}
+
+fn synth_word(rng: &mut Rng) -> String {
+    let n = rng.range(1, 7);
+    let mut s = String::new();
+    if rng.chance(1, 8) {
+        s.push(*rng.pick(b"(.") as char);
+    }
+    for _ in 0..n {
+        let c = match rng.below(16) {
+            0 => 'x',
+            1 => 'A',
+            2 => '-',
+            _ => *rng.pick(b"abcd") as char,
+        };
+        s.push(c);
+    }
+    if rng.chance(1, 4) {
+        s.push(*rng.pick(b".,-1") as char);
+    }
+    s
+}
+
+fn synth_cases(args: &Args) -> i32 {
+    quiet_panics();
+    start_watchdog(args);
+    let seed: u64 = args.num("seed", 1);
+    let n: u64 = args.num("n", 1000);
+    let level: u64 = args.num("level", 1);
+    let per_font: u64 = args.num("perfont", 6);
+    let mut rng = Rng::new(seed ^ 0x14_0002);
+    let mut out = Out::new(args.str("out"));
+    let mut st = Stats::default();
+    let mut i = 0u64;
+    while st.events < n {
+        let bc = match rng.below(4) {
+            0 => None,
+            1 => Some(b'd'), // a boundary character that also occurs in the text
+            _ => Some(b'|'),
+        };
+        let nrules = rng.range(1, 5);
+        let mut rules: Vec<Rule> = vec![];
+        for _ in 0..nrules {
+            let r = synth_rule(&mut rng, bc, level);
+            if !rules.iter().any(|q| q.l == r.l && q.r == r.r) {
+                rules.push(r);
+            }
+        }
+        let spec = FontSpec::Synth { bc, rules };
+        let mut font = match load_font(&spec) {
+            Ok(f) => f,
+            Err(_) => {
+                st.skipped_fonts += 1;
+                continue;
+            }
+        };
+        for _ in 0..per_font {
+            i += 1;
+            let mut script = vec![];
+            if rng.chance(3, 4) {
+                script.push(Item::Space);
+            } else {
+                script.push(Item::Word("a".into()));
+                script.push(Item::Space);
+            }
+            let nw = rng.range(1, 3);
+            for w in 0..nw {
+                if w > 0 {
+                    script.push(Item::Space);
+                }
+                script.push(Item::Word(synth_word(&mut rng)));
+            }
+            if rng.chance(1, 2) {
+                script.extend(tail_items());
+            }
+            let exc = exceptions_for(&script, &mut rng, None);
+            let (lh, rh) = hyphen_mins(i, &mut rng, false);
+            // most discretionaries need small minimums: the words are short
+            let (lh, rh) = if rng.chance(1, 2) { (lh.min(1), rh.min(1)) } else { (lh, rh) };
+            emit(&Case { font: spec.clone(), script, exc, lh, rh }, &mut font, &mut out, &mut st);
+        }
+    }
+    st.write(args, "synth");
+    0
+}
+
+// ------------------------------------------------------------------------------------------
+// generator 3: every short sequence of the node kinds TeX's word search distinguishes
+// ------------------------------------------------------------------------------------------
+
+fn struct_token(t: usize, id: u32) -> Vec<Item> {
+    let node = |v: Value| vec![Item::Node(v)];
+    match t {
+        0 => vec![Item::Space],
+        1 => vec![Item::Word("mon".into())],
+        2 => vec![Item::Word("fi".into())],
+        3 => vec![Item::Word("AV".into())],
+        4 => vec![Item::Word("3.".into())],
+        5 => vec![Item::Font(1), Item::Word("nom".into()), Item::Font(0)],
+        6 => node(json!({"k":"kern","w":1000 + id,"x":1})),
+        7 => node(json!({"k":"pen","p":50 + id})),
+        8 => node(json!({"k":"rule","w":100 + id,"h":10,"d":0})),
+        9 => node(json!({"k":"what","id":id})),
+        // math-off only: glue between math-on and math-off starts no search in TeX (866 auto_breaking); the
+        // pass does not know about formulas (ds::Math is documented as incomplete), outside the property
+        10 => node(json!({"k":"math","m":1})),
+        11 => node(json!({"k":"disc"})),
+        12 => vec![Item::Word("(".into())],
+        13 => node(json!({"k":"mark"})),
+        14 => node(json!({"k":"ins","b":id % 200})),
+        15 => node(json!({"k":"adjust"})),
+        16 => node(json!({"k":"hbox","w":200 + id})),
+        17 => node(json!({"k":"kern","w":2000 + id,"x":2})),
+        // (a raw kern of kind Normal is not generated: in text a Normal kern comes from the font program only,
+        // and TeX itself drops any other one when it rebuilds the word)
+        _ => node(json!({"k":"vbox","w":300 + id})),
+    }
+}
+
+fn struct_cases(args: &Args) -> i32 {
+    quiet_panics();
+    start_watchdog(args);
+    let maxlen: usize = args.num("maxlen", 3);
+    let ntok: usize = args.num("tokens", 13);
+    let lead: usize = args.num("lead", 1);
+    let mut out = Out::new(args.str("out"));
+    let mut st = Stats::default();
+    let mut font = load_font(&FontSpec::Cmr10).expect("cmr10");
+    let mut rng = Rng::new(0x14_0003);
+    let mins: Vec<(i32, i32)> = args
+        .str("mins")
+        .unwrap_or("1:1")
+        .split(',')
+        .map(|s| {
+            let (a, b) = s.split_once(':').unwrap();
+            (a.parse().unwrap(), b.parse().unwrap())
+        })
+        .collect();
+    for len in 1..=maxlen {
+        let total = ntok.pow(len as u32);
+        for codeword in 0..total {
+            let mut idx = vec![0usize; len];
+            let mut c = codeword;
+            for k in (0..len).rev() {
+                idx[k] = c % ntok;
+                c /= ntok;
+            }
+            // script: [a word and a glue] then the tokens
+            let mut flat: Vec<Item> = vec![];
+            if lead == 1 {
+                flat.push(Item::Word("x".into()));
+                flat.push(Item::Space);
+            }
+            for (k, t) in idx.iter().enumerate() {
+                flat.extend(struct_token(*t, k as u32 + 1));
+            }
+            // font switches that cancel are dropped; adjacent pieces of text in one font are one word
+            let mut script: Vec<Item> = vec![];
+            for it in flat {
+                match (&it, script.last_mut()) {
+                    (Item::Font(1), Some(Item::Font(0))) => {
+                        script.pop();
+                    }
+                    (Item::Word(w), Some(Item::Word(prev))) => prev.push_str(w),
+                    _ => script.push(it),
+                }
+            }
+            let exc = exceptions_for(&script, &mut rng, Some(1));
+            for (lh, rh) in &mins {
+                emit(&Case { font: FontSpec::Cmr10, script: script.clone(), exc: exc.clone(), lh: *lh, rh: *rh }, &mut font, &mut out, &mut st);
+            }
+        }
+    }
+    st.write(args, "struct");
+    0
+}
+
+// ------------------------------------------------------------------------------------------
+// generator 4: the inputs of the repository's own unit tests (boxworks-hyphenate/src/lib.rs)
+// ------------------------------------------------------------------------------------------
+
+/// (hyphenated input, compact lig/kern program, exceptions (None = the input), left_hyphen_min)
+const UNIT: &[(&str, &str, Option<&str>, i32)] = &[
+    ("mint", "", None, 1),
+    ("a-b", "", None, 1),
+    ("a-b", "ab -> axb^", None, 1),
+    ("a-b", "a- -> ax-^", None, 1),
+    ("a-b", "a- -> ax-^\nab -> ac^_", None, 1),
+    ("a-b", "|b -> |c^_", None, 1),
+    ("a-b", "|d -> |c^_", None, 1),
+    ("a-b", "|- -> |c^_", None, 1),
+    ("ab-c", "bc -> _z^_\n|b -> |d^_", None, 1),
+    ("abc-d", "ab -> ax^_\nxc -> _y^_\nyd -> _z^_", None, 1),
+    ("a-b", "-| -> -c^|", None, 1),
+    ("a-bc", "ab -> _x^_\nxc -> _y^_", None, 1),
+    ("a-bc", "ab -> _x^_\nxc -> _y^_\nbc -> _z^_", None, 1),
+    ("ab-c", "ab -> _x^_\nxc -> _y^_", None, 1),
+    ("ab-c", "ab -> ax^_", None, 1),
+    ("ab-c", "ab -> ax^_\nx- -> xy^-", None, 1),
+    ("ab-c", "ab -> ax^b\nx- -> xy^-", None, 1),
+    ("a-b", "ab -> ax^b", None, 1),
+    ("a-b", "ab -> a[100]b", None, 1),
+    ("a-b", "ab -> a[100]b\na- -> a[100]-", None, 1),
+    ("a-bcdefgh", "ab -> _x^_\nbc -> _y^_\ncd -> _z^_\nde -> _w^_\nef -> _v^_", None, 1),
+    ("a-bcd-ef-gh", "ab -> _x^_\nbc -> _y^_\ncd -> _z^_\nde -> _w^_\nef -> _v^_", None, 1),
+    ("a-bcde", "ab -> _x^_\nbc -> _y^_\nxc -> _y^_\nyd -> yzd^", None, 1),
+    ("baby,", "y, -> y[100],\ny| -> y[200]|", Some("baby"), 1),
+    ("baby,", "y, -> y[100],\ny| -> y[200]|", Some("ba-by"), 1),
+    ("ba-by", "y| -> y.^|", None, 1),
+    ("ab.", "|b -> |c^_\nc. -> c,^_", Some("a-b"), 1),
+    ("journey.", "y. -> y^,_\n,| -> ,?^|", Some("jour-ney"), 1),
+    ("journey.", "y. -> y^,_\ny, -> y^?_", Some("jour-ney"), 1),
+    ("journey.", "y. -> y,^_", Some("jour-ney"), 1),
+    ("journey.", "y. -> y^,_\ny, -> y^?,", Some("jour-ney"), 1),
+    ("sneezing", "y. -> y^,_\ny, -> y^?,", Some("sneez-ing"), 3),
+    ("d-if-fi-cult", "ff -> _0^_\n0i -> _1^_", None, 3),
+];
+
+/// fixed cases for each recorded deviation and for the situations the property names, so that every tier
+/// meets them whatever the seed: (text with `-` = permitted positions and `--` = a real hyphen, compact rules, lh, rh)
+const FIXED: &[(&str, &str, i32, i32)] = &[
+    ("x a-b", "|a -> |[50]a", 1, 1),                          // left-boundary kern
+    ("x ab", "|a -> |[50]a", 1, 1),                           // ... in a word without permitted position
+    ("x a-b", "|a -> |c^a", 1, 1),                            // boundary-only ligature
+    ("x (a-b", "|a -> |[50]a", 1, 1),                         // punctuation before the word
+    ("x (a-b", "|a -> _z^_", 1, 1),
+    ("x (a-b", "(a -> ([70]a", 1, 1),
+    ("x (ab-c", "(a -> _z^_\nzb -> z[30]b\n|b -> |[44]b", 1, 1),
+    ("x (d-a", "(d -> (a^_", 1, 1),                           // ligature with the left context
+    ("x a-bc", "ab -> _x^_\nbc -> _z^_\nc| -> _w^_", 1, 1),   // right-boundary ligature rebuilt while synchronising
+    ("x a-bc", "ab -> _x^_\nbc -> _z^_\nc| -> c[77]|", 1, 1),
+    ("x d--ac-bad", "d- -> _2^_", 1, 1),                      // ligature letter + hyphen starts a word
+    ("x jour-ney.", "y. -> y^,_\n,| -> ,?^|", 1, 1),          // ligature with the character after the word
+    ("x journey.", "y. -> y^,_\n,| -> ,?^|", 1, 1),
+    ("x b, a-b", "b, -> _1^,", 1, 1),
+    ("x a-b-c-d", "a- -> a[10]-\nb- -> _x^-\nc- -> cy^-\n-| -> -[5]|\n|d -> |[7]d", 1, 1), // hyphen and boundaries
+    ("x a-b-c-d", "ab -> a[10]b\nbc -> _x^_\nxd -> _y^_", 1, 1),
+    ("x a-b-c-d", "ab -> a[10]b\nbc -> _x^_\nxd -> _y^_", 2, 2),
+    ("x ab-cd", "", 3, 0),
+    ("x ab-cd", "", 0, 3),
+];
+
+fn fixed_cases(out: &mut Out, st: &mut Stats) {
+    for (text, prog, lh, rh) in FIXED {
+        let (bc, rules) = compact_rules(&prog.replace("\\n", "\n"));
+        let spec = FontSpec::Synth { bc, rules };
+        let mut font = load_font(&spec).expect("fixed-case font");
+        let (plain, exc) = marked_text(text);
+        for tail in [false, true] {
+            let mut script = script_from_text(&plain);
+            if tail {
+                script.extend(tail_items());
+            }
+            emit(&Case { font: spec.clone(), script, exc: exc.clone(), lh: *lh, rh: *rh }, &mut font, out, st);
+        }
+    }
+}
+
+/// "x dif-fi-cult well--known": hyphens mark the permitted positions of each run of letters, a doubled hyphen is
+/// a real hyphen character.  Returns the plain text and the exceptions.
+fn marked_text(text: &str) -> (String, BTreeMap<String, Vec<usize>>) {
+    let mut exc = BTreeMap::new();
+    let mut plain = String::new();
+    for tok in text.split(' ') {
+        let marked = tok.replace("--", "\u{1}");
+        let mut pos = vec![];
+        let mut w = String::new();
+        let mut run = String::new();
+        let mut flush = |run: &mut String, pos: &mut Vec<usize>| {
+            if !run.is_empty() {
+                exc.insert(run.to_ascii_lowercase(), std::mem::take(pos));
+                run.clear();
+            }
+        };
+        for c in marked.chars() {
+            match c {
+                '-' => pos.push(run.len()),
+                '\u{1}' => {
+                    flush(&mut run, &mut pos);
+                    w.push('-');
+                }
+                c if c.is_ascii_alphabetic() => {
+                    run.push(c);
+                    w.push(c);
+                }
+                c => {
+                    flush(&mut run, &mut pos);
+                    w.push(c);
+                }
+            }
+        }
+        flush(&mut run, &mut pos);
+        if !plain.is_empty() || tok.is_empty() {
+            plain.push(' ');
+        }
+        plain.push_str(&w);
+    }
+    (plain, exc)
+}
+
+fn compact_rules(src: &str) -> (Option<u8>, Vec<Rule>) {
+    use tfm::ligkern::lang::{Operation, PostLigOperation::*};
+    let mut rules = vec![];
+    let mut bc = None;
+    for line in src.lines().map(|l| l.trim()).filter(|l| !l.is_empty()) {
+        let (l, r, op) = Operation::parse_compact(line).expect("compact rule");
+        if r == '|' {
+            bc = Some(b'|');
+        }
+        let op = match op {
+            Operation::Kern(k) => Op::Kern(k.0),
+            Operation::Ligature { char_to_insert, post_lig_operation, .. } => Op::Lig(
+                match post_lig_operation {
+                    RetainNeitherMoveToInserted => 0,
+                    RetainLeftMoveNowhere => 1,
+                    RetainLeftMoveToInserted => 2,
+                    RetainRightMoveToInserted => 3,
+                    RetainRightMoveToRight => 4,
+                    RetainBothMoveNowhere => 5,
+                    RetainBothMoveToInserted => 6,
+                    RetainBothMoveToRight => 7,
+                },
+                char_to_insert.0,
+            ),
+            _ => panic!("unsupported compact operation"),
+        };
+        rules.push(Rule { l: l.map(|c| c as u8), r: r as u8, op });
+    }
+    (bc, rules)
+}
+
+fn unit_cases(args: &Args) -> i32 {
+    quiet_panics();
+    start_watchdog(args);
+    let mut out = Out::new(args.str("out"));
+    let mut st = Stats::default();
+    for (input, prog, exc_src, lh) in UNIT {
+        let (bc, rules) = compact_rules(prog);
+        // the unit tests keep cmr10's metrics and replace its program; kerns there are raw FixWords,
+        // here they are thousandths of the design size -- only their identity matters
+        let spec = FontSpec::Synth { bc, rules };
+        let mut font = load_font(&spec).expect("unit-test font");
+        let word: String = input.chars().filter(|c| *c != '-').collect();
+        let hyph = exc_src.unwrap_or(input);
+        let mut exc = BTreeMap::new();
+        for h in hyph.split_ascii_whitespace() {
+            let w: String = h.chars().filter(|c| *c != '-').collect();
+            let mut pos = vec![];
+            let mut n = 0;
+            for c in h.chars() {
+                if c == '-' {
+                    pos.push(n);
+                } else {
+                    n += 1;
+                }
+            }
+            exc.insert(w, pos);
+        }
+        for tail in [false, true] {
+            let mut script = vec![Item::Word("x".into()), Item::Space, Item::Word(word.clone())];
+            if tail {
+                script.extend(tail_items());
+            }
+            emit(&Case { font: spec.clone(), script, exc: exc.clone(), lh: *lh, rh: 1 }, &mut font, &mut out, &mut st);
+        }
+    }
+    fixed_cases(&mut out, &mut st);
+    st.write(args, "unit");
+    0
+}
+
+// ------------------------------------------------------------------------------------------
+// replay and probe
+// ------------------------------------------------------------------------------------------
+
+fn replay(args: &Args) -> i32 {
+    quiet_panics();
+    start_watchdog(args);
+    let src = std::fs::read_to_string(args.req("in")).unwrap();
+    let mut out = Out::new(args.str("out"));
+    let mut st = Stats::default();
+    for line in src.lines().filter(|l| !l.trim().is_empty()) {
+        let e: Value = serde_json::from_str(line).unwrap();
+        let case = case_from_event(&e);
+        let mut font = load_font(&case.font).expect("font of the recorded event");
+        *CURRENT.lock().unwrap() = Some((std::time::Instant::now(), case_json(&case).to_string()));
+        let ran = run_case(&case, &mut font);
+        *CURRENT.lock().unwrap() = None;
+        eprintln!("before: {}", show(&ran.before));
+        match &ran.after {
+            Ok(a) => eprintln!("after:  {}", show(a)),
+            Err(p) => eprintln!("panic:  {:?}", p),
+        }
+        let ev = event(&case, &ran);
+        st.record(&ran, &ev);
+        out.line(&ev);
+    }
+    0
+}
+
+fn show_char(c: char) -> String {
+    if c.is_ascii_graphic() {
+        c.to_string()
+    } else {
+        format!("<{}>", c as u32)
+    }
+}
+
+fn show(l: &[ds::Horizontal]) -> String {
+    let mut s = String::new();
+    for n in l {
+        use ds::Horizontal::*;
+        match n {
+            Char(c) => s.push_str(&format!("{}{} ", show_char(c.char), if c.font != 0 { format!("@{}", c.font) } else { String::new() })),
+            Ligature(l) => s.push_str(&format!(
+                "lig({}{}<{}{}{}>) ",
+                show_char(l.char),
+                if l.font != 0 { format!("@{}", l.font) } else { String::new() },
+                if l.includes_left_boundary { "|" } else { "" },
+                l.original_chars,
+                if l.includes_right_boundary { "|" } else { "" }
+            )),
+            Kern(k) => s.push_str(&format!("kern{}({}) ", match k.kind { ds::KernKind::Normal => "", _ => "!" }, k.width.0)),
+            Glue(_) => s.push_str("GLUE "),
+            Penalty(p) => s.push_str(&format!("pen({}) ", p.0)),
+            Discretionary(d) => {
+                let pre: Vec<ds::Horizontal> = d.pre_break.iter().map(|e| e.clone().into()).collect();
+                let post: Vec<ds::Horizontal> = d.post_break.iter().map(|e| e.clone().into()).collect();
+                s.push_str(&format!("DISC[{}|{}|{}] ", show(&pre).trim(), show(&post).trim(), d.replace_count));
+            }
+            other => s.push_str(&format!("{} ", node_json(other)["k"].as_str().unwrap())),
+        }
+    }
+    s
+}
+
+/// `vh c14-probe text="x dif-fi-cult" [rules="ab -> a[13]b;..."] [lh=1 rh=1] [tail=1]`: hyphens in the text are the
+/// permitted positions (a doubled hyphen `--` is a real hyphen character)
+fn probe(args: &Args) -> i32 {
+    quiet_panics();
+    let text = args.req("text");
+    let spec = match args.str("rules") {
+        None => FontSpec::Cmr10,
+        Some(r) => {
+            let (bc, rules) = compact_rules(&r.replace(';', "\n"));
+            let bc = match args.str("bc") {
+                Some(b) => Some(b.as_bytes()[0]),
+                None => bc,
+            };
+            FontSpec::Synth { bc, rules }
+        }
+    };
+    let mut font = load_font(&spec).expect("font");
+    let (plain, exc) = marked_text(text);
+    let mut script = script_from_text(&plain);
+    if args.num("tail", 0) == 1 {
+        script.extend(tail_items());
+    }
+    let case = Case { font: spec, script, exc, lh: args.num("lh", 1), rh: args.num("rh", 1) };
+    let ran = run_case(&case, &mut font);
+    println!("exceptions: {:?}", case.exc);
+    println!("before: {}", show(&ran.before));
+    match &ran.after {
+        Ok(a) => println!("after:  {}", show(a)),
+        Err(p) => println!("panic:  {:?}", p),
+    }
+    if let Some(p) = args.str("out") {
+        let mut out = Out::new(Some(p));
+        out.line(&event(&case, &ran));
+    }
+    0
 }
